@@ -5,6 +5,23 @@ V = os.path.dirname(os.path.dirname(os.path.abspath(__file__)))
 
 # id -> (category, level text, level note, technique, design ref)
 CLAIMED = {
+ "C01": ("other",
+  "The property as a whole (output equality over an unbounded family of programs) is not statically decidable here; six mechanism clauses that are necessary conditions of it are decided: scope push/pop pairing by node kind in cfg, fresh slot allocation by every closure generated for ':=', the three per-iteration loop-variable generators and their unconditional installation, completeness of the AST copier used for generics against the AST builder, operator/generator agreement (shared with C02), and evaluation of all sources of a multiple assignment into fresh temporaries before any destination is written. CFG wiring, frame-index computation, the skip-assign optimisations and value semantics - the main content of the property - are NOT decided.",
+  "Defect D14 (multi-variable ':=' with a redeclared variable acting as a swap) was found through R01.6 and repaired.",
+  "sibling/pairing lints over the typed syntax tree (custom go/types analyzer)", "DESIGN.md §2 C01"),
+ "C05": ("other",
+  "One table-agreement clause of 'interpreted values handed to compiled code have their interpreted methods invoked': every key of stdlib.MapTypes denotes the function value actually bound (default binding, or fixStdlib override re-keyed from it), every re-keying reads an existing key, and every bound ...interface{} function of a keyed package is keyed. Method resolution, dynamic dispatch, type assertions and type switches depend on run-time valueInterface contents and are NOT decided (three seeded changes of that kind are not detected).",
+  "Defects K6/D13 (log.Fatal*, log.Print*, fmt.Sscan*/Fscan*/Append* not wrapped) were found by this rule and repaired.",
+  "table agreement between stdlib.MapTypes, the default bindings and fixStdlib (custom go/types analyzer)", "DESIGN.md §2 C05"),
+ "C18": ("other",
+  "Structure of the extract generator only: exhaustive object classification keyed by scope name, guards placed per object kind, shape of the embedded template (parsed with text/template/parse), exact printing of string/int constants, unconditional import marking by the type qualifier, restricted names declared. Whether the emitted text compiles and binds faithfully is a property of strings produced at run time and is NOT decided (what the committed outputs say is decided by C14). Weakest claim of the set.",
+  "Trusted: text/template/parse.",
+  "structural lint of the generator and static parse of its embedded template", "DESIGN.md §2 C18"),
+ "C19": ("other",
+  "Structural clauses of debugger transparency: the debugger hooks and session API store only into debugger-owned state (SSA store targets, with interprocedural resolution of local maps), the plain and debugger execution loops are siblings, the breakpoint test dominates every mode-dependent 'keep running' return, the terminate event is deferred before execution, the breakpoint placement walk never prunes, and the cancellable channel-operation variants (the ones a debugged program runs) store reflect's ok. Equality of outputs under arbitrary stepping sequences and event ordering are NOT decided.",
+  "One frozen exception: SetBreakpoints forces lazy generation of exec closures through setExec (idempotent).",
+  "non-interference by store-target classification on SSA + go/cfg dominance", "DESIGN.md §2 C19"),
+
  "C02": ("other",
   "Table/shape agreement over every operator closure (425 run-time closures, 34 operator generators, 15 constant folders): operator token -> action -> generator -> Go operator, kind class <-> accessor/extractor/setter in every kind case (with the effective kind set of predicate-ordered cases), operand order, branch polarity, constant operands materialised through the accessor of their kind. Because the arithmetic is done by Go's own operator on the 64-bit widening and reflect setters truncate, wrap-around/truncation/sign extension/rounding follow once these facts hold; nothing is evaluated. Not decided: the operator type rules of typecheck.go, reflect.Value.Convert, string conversions, rewrites of the operator tree done by cfg (e.g. folding !(a<b)), result-slot allocation.",
   "Trusted: Go's operators, reflect accessors/setters. A seeded change rewriting !(a<b) into a>=b in cfg (NaN) is NOT detected (documented in DESIGN.md).",
